@@ -104,11 +104,13 @@ def tree_hash(extra=()):
     files = _walk(os.path.join(REPO, "libyara"), (".c", ".h", ".y", ".l"))
     files += _walk(os.path.join(REPO, "cli"), (".c", ".h"))
     files += _walk(os.path.join(VERIF, "shim"), (".c", ".h"))
+    plan = _gen_plan()
+    h.update(("shipped-generated:" + ",".join(plan)).encode())
     for f in files:
-        # generated parsers shipped in the tree are ignored (regenerated)
+        # a generated parser shipped in the tree is ignored when it is going to be regenerated
         b = os.path.basename(f)
         if os.path.dirname(f) == os.path.join(REPO, "libyara") and b in (
-                [g + ".c" for g in GEN_Y + GEN_L] + [g + ".h" for g in GEN_Y]):
+                [g + ".c" for g in GEN_Y + GEN_L if g not in plan] + [g + ".h" for g in GEN_Y if g not in plan]):
             continue
         h.update(f.encode())
         with open(f, "rb") as fp:
@@ -126,15 +128,40 @@ def run(cmd, cwd=None, quiet=True):
     return p.stdout
 
 
+def _gen_plan():
+    """Which generated parsers / lexers are taken from the tree as shipped.
+
+    Same rule as the tree's own Makefile: a generated .c is rebuilt from its .y / .l only when
+    the source is strictly newer; otherwise the shipped file is what `make` compiles, so it is
+    what the checks must compile too (an edit made to grammar.c alone is honoured, and so is an
+    edit made to grammar.y alone)."""
+    lib = os.path.join(REPO, "libyara")
+    shipped = []
+    for g, ext in [(g, ".y") for g in GEN_Y] + [(l, ".l") for l in GEN_L]:
+        src, gen = os.path.join(lib, g + ext), os.path.join(lib, g + ".c")
+        need_h = ext == ".y"
+        if os.path.exists(gen) and (not need_h or os.path.exists(os.path.join(lib, g + ".h"))):
+            if os.path.getmtime(src) <= os.path.getmtime(gen):
+                shipped.append(g)
+    return tuple(sorted(shipped))
+
+
 def _gen_parsers(gdir):
     lib = os.path.join(REPO, "libyara")
     os.makedirs(gdir, exist_ok=True)
 
     def bison(g):
+        if g in _gen_plan():
+            shutil.copyfile(os.path.join(lib, g + ".c"), os.path.join(gdir, g + ".c"))
+            shutil.copyfile(os.path.join(lib, g + ".h"), os.path.join(gdir, g + ".h"))
+            return
         run(["bison", "-y", "-d", "-Wno-yacc", "-o", os.path.join(gdir, g + ".c"),
              os.path.join(lib, g + ".y")])
 
     def flex(l):
+        if l in _gen_plan():
+            shutil.copyfile(os.path.join(lib, l + ".c"), os.path.join(gdir, l + ".c"))
+            return
         d = os.path.join(gdir, "_" + l)
         os.makedirs(d, exist_ok=True)
         run(["flex", os.path.join(lib, l + ".l")], cwd=d)
